@@ -180,6 +180,15 @@ async def drive_mrp(history, abandon_before, stop_inflight=False):
             resp.identifier = msg.identifier
             proto.message_received(resp, None)
             await asyncio.sleep(0)
+        elif ev == "L":
+            # the device answers, but only after the keep-alive has timed out (6 s latency): the late
+            # answer belongs to the abandoned keep-alive and must not count for the retry in flight
+            ident = str(msg.identifier)
+            await asyncio.sleep(5.5)
+            resp = messages.create(protobuf.GENERIC_MESSAGE)
+            resp.identifier = ident
+            proto.message_received(resp, None)
+            await asyncio.sleep(0)
         else:
             await asyncio.sleep(5.5)  # send_and_receive times out after 5 s
     if stop_inflight and not conn.closed:
@@ -410,6 +419,78 @@ async def drive_ap2_deep(history, encrypted=False):
     return trace
 
 
+async def drive_ap2_late_then_stop():
+    from pyatv.protocols.airplay.ap2_session import AP2Session
+    from pyatv.auth.hap_pairing import NO_CREDENTIALS
+    from pyatv.settings import InfoSettings
+    from pyatv.support.state_producer import StateProducer
+    from pyatv.support.http import HttpConnection
+    from pyatv.support.rtsp import RtspSession
+    trace, reqs = [], []
+
+    class Tr:
+        def write(self, data):
+            reqs.append(bytes(data))
+
+        def close(self):
+            pass
+
+        def get_extra_info(self, name, default=None):
+            return ("127.0.0.1", 7000)
+
+    class L:
+        def connection_lost(self, exc):
+            trace.append("Failure")
+
+        def connection_closed(self):
+            trace.append("Finish")
+
+    def cseq_of(req):
+        for line in req.split(b"\r\n"):
+            if line.lower().startswith(b"cseq:"):
+                return line.split(b":", 1)[1].strip()
+
+    sp = StateProducer()
+    conn = HttpConnection()
+    conn.transport = Tr()
+    conn._local_ip = conn._remote_ip = "127.0.0.1"
+    session = AP2Session("127.0.0.1", 7000, NO_CREDENTIALS, InfoSettings())
+    session.connection = conn
+    session.rtsp = RtspSession(conn)
+    session.start_keep_alive(sp)
+    listener = L()                      # the producer only keeps a weak reference
+    sp.listener = listener
+    for _ in range(4000):
+        if reqs:
+            break
+        await asyncio.sleep(0.05)
+    if not reqs:
+        return ["NoKeepAlive"]
+    trace.append("Send")
+    first = cseq_of(reqs[0])
+    for _ in range(4000):                 # stay silent: the keep-alive times out and is retried at once
+        if len(reqs) > 1:
+            break
+        await asyncio.sleep(0.05)
+    if len(reqs) < 2:
+        return trace + ["NoRetry"]
+    trace.append("Send")
+    # the answer to the FIRST keep-alive arrives now; the HTTP layer hands it to the retry, which files
+    # it under its CSeq and goes on waiting for its own
+    conn.data_received(b"RTSP/1.0 200 OK\r\nCSeq: " + first + b"\r\nContent-Length: 0\r\n\r\n")
+    await asyncio.sleep(1)
+    task = session._feedback_task
+    task.cancel()                         # what AP2Session.stop() does when the connection is closed locally
+    for _ in range(200):
+        if task.done():
+            break
+        await asyncio.sleep(0.1)
+    await asyncio.sleep(30)
+    if not task.done():
+        trace.append("StillRunning")
+    return trace
+
+
 async def drive_mrp_deep(history, drop=None, encrypted=False):
     """MrpProtocol.enable_heartbeat on top of the REAL MrpConnection with a device listener: after
     the fatal run the device listener must be told exactly once that the connection is gone.
@@ -589,6 +670,31 @@ def callsites(ctx, cases_mrp, cases_ap2):
                     ctx.violation("C19:mrp-callsite:" + e, "MrpProtocol keep-alive: " + e,
                                   {"site": "mrp", "device": hist, "abandoned_request_before": ab, "impl_trace": trace})
                 cases_mrp.append((r, hist, [t for t in trace if t != "ActivityAfterFailure"], "Failure" in trace))
+    # answers that arrive after the keep-alive timed out (they count as failed keep-alives)
+    for n in range(1, maxlen):
+        for hist0 in itertools.product("OFL", repeat=n):
+            hist0 = "".join(hist0)
+            hist = hist0.replace("L", "F")
+            if "L" not in hist0 or model_py(r, hist[:-1]):
+                continue
+            trace = vloop.run(drive_mrp, hist0, None)
+            ctx.case(("mrp-late", hist0), nontrivial=True, sample={"site": "MrpProtocol keep-alive, late answers", "device": hist0, "trace": trace} if hist0 == "LL" else None)
+            ctx.count("mrp-late-answer")
+            errs = [e for e in oracle(r, hist, [t for t in trace if t != "ActivityAfterFailure"], True) if e != "finish-not-once-on-cancel"]
+            if "ActivityAfterFailure" in trace:
+                errs.append("activity-after-failure")
+            for e in errs:
+                ctx.violation("C19:mrp-callsite:" + e, "MrpProtocol keep-alive with late answers: " + e,
+                              {"site": "mrp", "device": hist0, "abandoned_request_before": None, "impl_trace": trace})
+            cases_mrp.append((r, hist, [t for t in trace if t != "ActivityAfterFailure"], "Failure" in trace))
+    # AP2: the connection is closed locally while the keep-alive waits for its own CSeq (it was handed
+    # the late answer to the previous, timed-out keep-alive): no failure may be reported
+    trace = vloop.run(drive_ap2_late_then_stop)
+    ctx.case(("ap2-late-then-stop",), nontrivial=True, sample={"site": "AP2 keep-alive cancelled while waiting for its CSeq", "trace": trace})
+    ctx.count("ap2-late-then-stop")
+    if "Failure" in trace or trace.count("Finish") != 1:
+        ctx.violation("C19:ap2-callsite:failure-reported-on-close", "AP2 keep-alive cancelled while waiting for its own CSeq: trace %s" % trace,
+                      {"site": "ap2-late-then-stop", "impl_trace": trace})
     # the real transport-facing classes below the keep-alive
     for n in range(1, maxlen):
         for hist in itertools.product("OoEF", repeat=n):
@@ -817,7 +923,7 @@ def replay(ctx, path):
     r = HEARTBEAT_RETRIES
     if site == "mrp":
         trace = vloop.run(drive_mrp, rp["device"], rp.get("abandoned_request_before"))
-        hist = rp["device"]
+        hist = rp["device"].replace("L", "F")
     elif site == "mrp-stop":
         trace = vloop.run(drive_mrp, rp["device"], None, True)
         print("device=%s trace=%s" % (rp["device"], trace))
@@ -826,6 +932,10 @@ def replay(ctx, path):
         trace, reports, closed = vloop.run(drive_mrp_deep, rp["device"], rp["when"])
         print("device=%s when=%s trace=%s listener reports=%s" % (rp["device"], rp["when"], trace, reports))
         return 1 if ("SendAfterDrop" in trace or "FailureAfterDrop" in trace or "ReportAfterDrop" in trace or len(reports) != 1) else 0
+    elif site == "ap2-late-then-stop":
+        trace = vloop.run(drive_ap2_late_then_stop)
+        print("trace=%s" % trace)
+        return 1 if ("Failure" in trace or trace.count("Finish") != 1) else 0
     elif site == "ap2":
         trace, done = vloop.run(drive_ap2, rp["history"])
         errs = oracle(r, rp["history"], trace, done)
